@@ -150,6 +150,16 @@ def run_property(pid, tier, seed):
         orc = oracle_for(cp, o['id'])
         if orc and not o.get('playback'):
             native_jobs.append(('search', o, orc, []))
+    # verifier inconclusive on this tree (unsupported construct, lost anchor, ...): the exec form of the
+    # same contracts is evaluated natively; only a concrete failing input can turn this into a violation
+    fallback_obs = []
+    if inconclusive and not refuted:
+        for orc in sorted(set(cp.get('witness', {}).values())):
+            fo = {'id': 'native:' + orc, 'fn': '', 'kind': 'native-contract-evaluation', 'engine': 'native/rustc',
+                  'status': 'undecided', 'text': 'exec form of the postconditions, oracle ' + orc,
+                  'detail': 'verifier inconclusive: ' + inconclusive[0][:300], 'fallback': True}
+            fallback_obs.append(fo)
+            native_jobs.append(('fallback', fo, orc, []))
     native_res = {}
     if native_jobs:
         jobs = [(j[2], j[3]) for j in native_jobs]
@@ -173,6 +183,23 @@ def run_property(pid, tier, seed):
 
     # ---------------- violations
     violations = []
+    needs_contract = {}
+    for kind, e, r in results:
+        if kind == 'verus' and r.gen is not None:
+            nc = [a['item'] for a in r.gen.auto_items if not a['autospec'] and ' fn ' not in a['item'] and '::' in a['item'] or (not a['autospec'] and a['item'].startswith(('fn ', 'impl ')))]
+            if nc:
+                needs_contract[e['unit']] = nc
+    for o in fallback_obs:
+        res = native_res.get(id(o))
+        if res is not None and res.get('status') in ('fail', 'crash'):
+            o['status'] = 'refuted'
+            refuted.append(o)
+    for o in list(refuted):
+        res = native_res.get(id(o))
+        if (res is None or res.get('status') not in ('fail', 'crash')) and not o.get('playback') and o.get('unit') in needs_contract:
+            # the failing proof involves a new helper function that has no contract yet: "needs contract", not a bug
+            inconclusive.append('obligation %s no longer proved, but unit %s pulled in uncontracted new helper(s) %s and no failing input was found: needs-contract' % (o['id'], o['unit'], needs_contract[o['unit']]))
+            refuted.remove(o)
     for o in refuted:
         res = native_res.get(id(o))
         rp = os.path.join(VERIF, 'replays', '%s-%s.json' % (pid, o['id'].replace('/', '_').replace(':', '_').replace(' ', '_')))
